@@ -66,6 +66,15 @@ PROPS["C04"] = {
                     "the send-rate estimate is set by poking the estimator (no real-time sleeping)"],
 }
 
+PROPS["C05"] = {
+    "units": [
+        rapid("cache-model", "packetcache", "TestVerif_C05_CacheModel", 2000, 10000),
+        rapid("concurrent", "packetcache", "TestVerif_C05_Concurrent", 12, 60, race=True, shards=8),
+    ],
+    "technique": "model-based stateful property testing (rapid) + concurrent readers with self-validating content under the race detector",
+    "assumptions": ["callers pass a result buffer of BufSize bytes (every caller in galene does)", "packet sizes 1..1504, capacities 1..65535"],
+}
+
 NOT_APPLICABLE = {}
 
 ENGINES = [
